@@ -36,8 +36,38 @@ namespace Pistache::Http::Header
         parse(std::string(str, len));
     }
 
-    void Allow::parseRaw(const char* /*str*/, size_t /*len*/)
+    void Allow::parseRaw(const char* str, size_t len)
     {
+        // Allow = #method (a comma separated list, possibly empty)
+        const std::string value(str, len);
+        std::string::size_type pos = 0;
+        while (pos <= value.size())
+        {
+            auto comma = value.find(',', pos);
+            if (comma == std::string::npos)
+                comma = value.size();
+
+            auto beg = value.find_first_not_of(" \t", pos);
+            if (beg != std::string::npos && beg < comma)
+            {
+                const auto end          = value.find_last_not_of(" \t", comma - 1);
+                const std::string token = value.substr(beg, end - beg + 1);
+
+                bool known = false;
+#define METHOD(repr, text)                      \
+    if (!known && token == text)                \
+    {                                           \
+        methods_.push_back(Http::Method::repr); \
+        known = true;                           \
+    }
+                HTTP_METHODS
+#undef METHOD
+                if (!known)
+                    throw std::runtime_error("Unknown method in Allow header");
+            }
+
+            pos = comma + 1;
+        }
     }
 
     const char* encodingString(Encoding encoding)
